@@ -847,6 +847,7 @@ class NodeFor:
             input_ = lst
             result = TRUE
             line = None
+            value = None
             try:
                 line = input_.readLine()
                 while line:
@@ -870,11 +871,9 @@ class NodeFor:
                     elif result.isReturn():
                         break
                     line = input_.readLine()
-                    if len(self.identifiers) == 1:
-                        environment.remove(self.identifiers[0])
-                    else:
-                        for i in range(len(self.identifiers)):
-                            environment.remove(self.identifiers[i])
+                if value is not None:
+                    for identifier in self.identifiers:
+                        environment.remove(identifier)
             except CklRuntimeError:
                 raise
             except Exception:
@@ -1031,6 +1030,7 @@ class NodeFor:
                     # continue
                 elif result.isReturn():
                     break
+            if s:
                 environment.remove(self.identifiers[0])
             return result
 
